@@ -20,7 +20,7 @@ BOUNDS = {
     "quick": "exception tables: all byte strings of length 0..6, plus complete entries with varints of 1-4 bytes (9 length patterns, all digits symbolic); location tables: 1 entry over 13 entry forms "
              "(short x2, one-line x3, no-column with 1/2/3-byte varint, long with 4 varint-length patterns, none) and "
              "2 entries over 8 forms; first line 1..10^6; 3-byte varints in the co_lines walker only in thorough",
-    "thorough": "exception tables: length 0..8; location tables: 1-2 entries over all 13 forms, 3 entries over 8 forms",
+    "thorough": "exception tables: length 0..8; location tables: 1-2 entries over all 13 forms, 3 entries over 8 forms (triples with two or more long/3-byte forms and pairs of two 3-byte forms left out: no verdict within 10 minutes)",
 }
 OUTSIDE = [
     "malformed location tables (truncated entries, continuation byte with bit 7 set, running line < 1)",
@@ -324,5 +324,10 @@ def generate(tier, seed):
                 continue  # 3-byte varints in the co_lines walker need > 60 s of z3 time: thorough tier only
             if tier == "quick" and len(fs) > 1 and all(f.startswith("l") for f in fs):
                 continue  # two long-form entries: > 60 s of z3 time, thorough tier only
+            heavy = sum(1 for f in fs if f.startswith("l") or f == "n3")
+            if tier == "thorough" and len(fs) == 3 and heavy >= 2:
+                continue  # measured: these run to the 10-minute limit without a verdict (83 of them in one pass); pairs keep the coverage
+            if tier == "thorough" and len(fs) == 2 and all(f in ("n3", "l3111") for f in fs):
+                continue
             obs.append(loc_ob(fs, which, tier))
     return obs
